@@ -6,6 +6,7 @@ package robust
 
 import (
 	"bytes"
+	"encoding/base64"
 	"encoding/json"
 	"fmt"
 	"io"
@@ -232,6 +233,12 @@ func (e *GcsEnv) Seed() {
 	e.Do(Req{Method: "POST", Path: "/upload/storage/v1/b/bk/o", Query: "uploadType=multipart", Hdr: map[string]string{"Content-Type": ct}, Body: b})
 }
 
+// tokenFor is the page token the emulator itself would hand out after `name`.
+func tokenFor(name string) string {
+	b := append([]byte{0x0a, byte(len(name))}, name...)
+	return base64.StdEncoding.EncodeToString(b)
+}
+
 var junkInts = []string{"-1", "0", "9223372036854775807", "9223372036854775808", "-9223372036854775808", "1e3", "0x10", " 5", "५", "abc", "", "NaN", "18446744073709551616"}
 var junkNames = []string{"", "a", "missing", "a/../b", "%2F", "a%2Fb", "a//b", ".", "..", "d", "d/", "/o/x", "x/o/y/rewriteTo/b/bk/o/q", "a/compose", "\xff\xfe", "é\x00", strings.Repeat("n", 300), "a?x=1", "a#f", "*"}
 var junkJSON = []string{``, `{`, `null`, `[]`, `"str"`, `5`, `{"name":5}`, `{"name":null}`, `{"metadata":5}`, `{"metadata":{"k":5}}`, `{"generation":"x"}`, `{"size":"-1"}`, `{"sourceObjects":null}`, `{"sourceObjects":[null]}`,
@@ -280,7 +287,8 @@ func GenGcs(r *core.Rng) Req {
 			q.Set("maxResults", jint())
 		}
 		if r.Chance(1, 2) {
-			q.Set("pageToken", core.Pick(r, []string{"", "%%%", "AAAA", "CgFh", "Cv8=", "////", strings.Repeat("Q", 999), "Cgj/"}))
+			q.Set("pageToken", core.Pick(r, []string{"", "%%%", "AAAA", "Cv8=", "////", strings.Repeat("Q", 999), "Cgj/",
+				tokenFor("a"), tokenFor("a"), tokenFor("d/e"), tokenFor("z z"), tokenFor(""), tokenFor("zzzz"), tokenFor("d")}))
 		}
 		return Req{Method: "GET", Path: "/storage/v1/b/" + bucket() + "/o", Query: q.Encode(), Note: "list"}
 	case 2: // media upload
@@ -531,6 +539,8 @@ func Directed() []Req {
 		{Method: "GET", Path: "/storage/v1/b/bk/o", Query: "maxResults=1", Note: "first page of a listing (token after any name)"},
 		{Method: "GET", Path: "/storage/v1/b/bk/o", Query: "maxResults=1&pageToken=%25%25%25", Note: "garbage page token"},
 		{Method: "GET", Path: "/storage/v1/b/bk/o", Query: "maxResults=-1", Note: "negative maxResults"},
+		{Method: "GET", Path: "/storage/v1/b/bk/o", Query: "prefix=d%2Fe%2Ff&delimiter=%2F&pageToken=" + url.QueryEscape(tokenFor("a")), Note: "token of a name shorter than the prefix, with a delimiter"},
+		{Method: "GET", Path: "/storage/v1/b/bk/o", Query: "prefix=a.&delimiter=.&maxResults=1&pageToken=" + url.QueryEscape(tokenFor("d/e")), Note: "token of a name outside the prefix"},
 		{Method: "PUT", Path: "/upload/storage/v1/b/bk/o", Query: "upload_id=99", Hdr: map[string]string{"Content-Range": "bytes 0-3/4"}, Body: []byte("abcd"), Note: "unknown upload id"},
 	}
 }
